@@ -175,6 +175,10 @@ def observe_cont(w, j):
     if c.pdimension > 1:
         # the per-direction views of the sampling density must be the components of the container's delta
         ob["delta_dirs"] = [float(getattr(c, "delta_" + SUF[d])) for d in range(c.pdimension)]
+        ss = c.sample_size
+        ob["ssz_ok"] = isinstance(ss, (list, tuple)) and [int(x) for x in ss] == [int(getattr(c, "sample_size_" + SUF[d])) for d in range(c.pdimension)]
+    else:
+        ob["ssz_ok"] = not isinstance(c.sample_size, (list, tuple))
     if c.pdimension == 2:
         def tv():
             vs = list(c.vertices)
@@ -543,6 +547,8 @@ def fresh_check_cont(w, j, ob, label):
         fc.delta = ob["delta"][0] if c.pdimension == 1 else ob["delta"]
     except Exception as e:
         return "%s: a fresh container cannot be built (%s: %s)" % (label, type(e).__name__, e)
+    if ob.get("ssz_ok") is False:
+        return "%s sample_size of the container is not the scalar (curves) / the list of its per-direction sample sizes" % label
     if "delta_dirs" in ob and ob["delta_dirs"] != ob["delta"]:
         return "%s delta_u/v/w of the container are %s, its delta is %s" % (label, ob["delta_dirs"], ob["delta"])
     m = cmp_view("container evalpts", ob["eval"], call(lambda: pl(fc.evalpts)))
